@@ -22,6 +22,8 @@ import multiprocessing as mp
 
 ROOT = os.path.dirname(os.path.dirname(os.path.abspath(__file__)))
 REPO = os.environ.get('VERIF_REPO', '/repo')
+# mutation runs (VERIF_REPO pointing at a scratch copy) never touch /verif/evidence or /verif/replays
+OUT = ROOT if os.path.realpath(REPO) == '/repo' else os.path.join('/dev/shm', 'verif_mut_out')
 
 
 def setup_env():
@@ -271,14 +273,14 @@ def match_known(prop, sig, known):
 
 
 def write_replay(prop, fail, seed, tier):
-    os.makedirs(os.path.join(ROOT, 'replays'), exist_ok=True)
+    os.makedirs(os.path.join(OUT, 'replays'), exist_ok=True)
     blob = json.dumps({'property': prop, 'seed': seed, 'tier': tier, 'sig': fail['sig'], 'case': fail['case'],
                        'detail': fail['detail']}, indent=1, sort_keys=True, default=str)
     h = hashlib.md5((prop + fail['sig'] + json.dumps(fail['case'], sort_keys=True, default=str)).encode()).hexdigest()[:10]
-    path = os.path.join(ROOT, 'replays', '%s_%s.json' % (prop, h))
+    path = os.path.join(OUT, 'replays', '%s_%s.json' % (prop, h))
     with open(path, 'w') as f:
         f.write(blob)
-    test = os.path.join(ROOT, 'replays', 'test_%s_%s.py' % (prop, h))
+    test = os.path.join(OUT, 'replays', 'test_%s_%s.py' % (prop, h))
     with open(test, 'w') as f:
         f.write(_REPLAY_TEST % {'root': ROOT, 'path': path, 'prop': prop})
     return path
@@ -320,10 +322,10 @@ def replay(path):
 
 
 def write_evidence(prop, tier, seed, level, coverage, wall, violations, assumptions):
-    os.makedirs(os.path.join(ROOT, 'evidence'), exist_ok=True)
+    os.makedirs(os.path.join(OUT, 'evidence'), exist_ok=True)
     ev = {'property_id': prop, 'tier': tier, 'seed': int(seed), 'level': level, 'coverage': coverage,
           'assumptions': assumptions, 'wall_s': round(wall, 2), 'violations': int(violations)}
-    path = os.path.join(ROOT, 'evidence', prop + '.json')
+    path = os.path.join(OUT, 'evidence', prop + '.json')
     tmp = path + '.tmp'
     with open(tmp, 'w') as f:
         json.dump(ev, f, indent=1, default=str)
